@@ -105,6 +105,7 @@ pub proof fn lemma_reported_fits(w: nat, v: nat)
 impl StackPointerOffset {
 //@ fn impl StackPointerOffset :: fn from_intermediate
 //@ closure 0 || -> (e0: Error)
+    ensures e0 is Analysis,
 //@ spec
     requires io_wf(*intermediate),
     ensures
@@ -113,6 +114,7 @@ impl StackPointerOffset {
         /*@signed*/ *intermediate matches IntermediateOffset::Value(c) ==> (c.bits <= 64 ==> (r matches Ok(StackPointerOffset::Value(k))
             && (c.bits as nat <= usize::BITS ==> k as int == sval(c.bits as nat, c.value@)))),
         /*@wide*/ *intermediate matches IntermediateOffset::Value(c) ==> (c.bits > 64 ==> r is Err),
+        /*@err_kind*/ r matches Err(e) ==> e is Analysis,
         /*@spec*/ usize::BITS == 64 ==> (match reported(*intermediate) { Some(x) => r == Ok::<StackPointerOffset, Error>(x), None => r is Err }),
 //@ enter
     proof {
@@ -125,6 +127,12 @@ impl StackPointerOffset {
 }
 
 // ---- transform: every entry is converted ------------------------------------------------------------
+/// the reported map is the entry-wise SIGNED READING of the intermediate map (64-bit host: isize is i64)
+pub open spec fn conv_map(mi: vstd::map::Map<il::ProgramLocation, IntermediateOffset>, mo: vstd::map::Map<il::ProgramLocation, StackPointerOffset>) -> bool {
+    &&& mo.dom() =~= mi.dom()
+    &&& forall|k: il::ProgramLocation| #[trigger] mi.contains_key(k) ==> (usize::BITS == 64 ==> reported(mi[k]) == Some(mo[k]))
+}
+
 //@ fn fn transform loops=1
 //@ rewrite 1 `states .into_iter() .try_fold(HashMap::new(), |mut t, (rpl, ispo)| {` => `let mut t: HashMap<il::ProgramLocation, StackPointerOffset> = HashMap::new(); let vf_items = hashmap_into_items::hashmap_into_items(states); for vf_item in vf_it: vf_items { let (rpl, ispo) = vf_item; {` ## R-tryfold: `ITER.try_fold(INIT, |mut acc, x| { BODY; Ok(acc) })` is by definition the loop `let mut acc = INIT; for x in ITER { BODY }; Ok(acc)` whose `?` leaves with the error (part 1 of 2; BODY stays the original tokens); `states.into_iter()` is taken through the stand-in of prelude/hashmap_into_items.rs (every entry once, order unspecified)
 //@ rewrite 1 `Ok(t) })` => `} } Ok(t)` ## R-tryfold: part 2 of 2
@@ -132,9 +140,8 @@ impl StackPointerOffset {
     requires forall|k: il::ProgramLocation| #[trigger] states@.contains_key(k) ==> io_wf(states@[k]),
     ensures
         /*@domain*/ r matches Ok(t) ==> t@.dom() =~= states@.dom(),
-        /*@entries*/ r matches Ok(t) ==> forall|k: il::ProgramLocation| #[trigger] states@.contains_key(k) ==>
-            (usize::BITS == 64 ==> reported(states@[k]) == Some(t@[k])),
-        /*@err*/ r is Err ==> exists|k: il::ProgramLocation| #[trigger] states@.contains_key(k) && reported(states@[k]) is None,
+        /*@entries*/ r matches Ok(t) ==> conv_map(states@, t@),
+        /*@err*/ r matches Err(e) ==> e is Analysis && exists|k: il::ProgramLocation| #[trigger] states@.contains_key(k) && reported(states@[k]) is None,
 //@ before 0 `let mut t`
     let ghost m0 = states@;
 //@ loop 0
@@ -327,19 +334,6 @@ pub open spec fn gamma_ub(a: AOff, b: AOff, j: AOff) -> bool {
         gamma(sp, sp0, a, s) || gamma(sp, sp0, b, s) ==> gamma(sp, sp0, j, s)
 }
 
-impl<'f> StackPointerOffsetAnalysis {
-
-//@ fn impl<'f> fixed_point::FixedPointAnalysis<'f, IntermediateOffset> for StackPointerOffsetAnalysis :: fn join
-//@ spec
-    ensures
-        /*@total*/ r is Ok,
-        /*@upper_bound*/ r matches Ok(j) ==> gamma_ub(abs(state0), abs(*state1), abs(j)),
-        /*@le_consistent*/ r matches Ok(j) ==> a_le(abs(state0), abs(j)) && a_le(abs(*state1), abs(j)),
-        /*@least*/ r matches Ok(j) ==> abs(j) == a_join(abs(state0), abs(*state1)),
-        /*@wf*/ (io_wf(state0) && io_wf(*state1)) ==> (r matches Ok(j) && io_wf(j)),
-//@ end
-
-} // impl
 
 // ---- trans ---------------------------------------------------------------------------------------------
 
@@ -429,26 +423,3 @@ pub proof fn lemma_rpl_eq(x: RefProgramLocation, y: RefProgramLocation)
     }
 }
 
-impl<'f> StackPointerOffsetAnalysis {
-
-//@ fn impl<'f> fixed_point::FixedPointAnalysis<'f, IntermediateOffset> for StackPointerOffsetAnalysis :: fn trans
-//@ spec
-    requires
-        location.rpl_wf(), fn_sane(*location.function), sp_ok(self.stack_pointer),
-        state matches Some(s) ==> io_wf(s),
-    ensures
-        /*@entry_seed*/ (state is None && entry_loc(*location.function) == Some(location.loc())) ==>
-            (r matches Ok(a2) ==> trans_abs(self.stack_pointer, *location.function, location.loc(), Some(AOff::Value(self.stack_pointer.bits as nat, 0))) == Some(abs(a2))),
-        /*@other_seed*/ (state is None && entry_loc(*location.function) is Some && entry_loc(*location.function) != Some(location.loc())) ==>
-            (r matches Ok(a2) ==> trans_abs(self.stack_pointer, *location.function, location.loc(), Some(AOff::Top)) == Some(abs(a2))),
-        /*@spec*/ r matches Ok(a2) ==> trans_abs(self.stack_pointer, *location.function, location.loc(), opt_abs(state)) == Some(abs(a2)) && io_wf(a2),
-        /*@no_entry*/ (state is None && entry_loc(*location.function) is None) ==> r is Err,
-        /*@completes*/ (fn_wf(*location.function) && width_ok(self.stack_pointer, opt_abs(state).unwrap_or(AOff::Top)))
-            ==> (r is Err ==> trans_abs(self.stack_pointer, *location.function, location.loc(), opt_abs(state)) is None),
-//@ enter
-    proof { lemma_loc_op(location); }
-//@ after 0 `.ok_or("Unable to get function entry")??;`
-    proof { lemma_rpl_eq(location, function_entry); }
-//@ end
-
-} // impl
